@@ -205,6 +205,18 @@ def check_case(ctx: Ctx, case) -> None:
                          {"base_text": base_text})
                 continue
             ctx.fail("negative-tick", f"{name}({neg}) returned {r}", {"base_text": base_text})
+    for hint in range(0, min(len(bpm), 6)):
+        ctx.evaluations += 1
+        try:
+            r = bpm.timestamp_at_tick(-1 - hint, start_iteration_index=hint)
+        except ValueError:
+            continue
+        except Exception as e:  # noqa: BLE001
+            ctx.fail("negative-tick", f"timestamp_at_tick({-1 - hint}, start_iteration_index={hint}) raised "
+                                      f"{type(e).__name__}: {e}", {"base_text": base_text})
+            continue
+        ctx.fail("negative-tick", f"timestamp_at_tick({-1 - hint}, start_iteration_index={hint}) returned {r}",
+                 {"base_text": base_text})
     for r in (0, -1, -192):
         ctx.evaluations += 1
         try:
